@@ -362,6 +362,7 @@ class FuncAnalysis:
         self.f = f
         self.env: dict[str, T] = {}
         self.loop_taints: list[frozenset] = []
+        self.loop_nodes: list = []
         self.ret: T | None = None
         self.sink_params: dict = {}
         self.imports = self.sm.module_imports(f.rel)
@@ -581,6 +582,19 @@ class FuncAnalysis:
         l, r = self.type_of(n.left), self.type_of(n.right)
         if isinstance(n.op, (ast.BitOr, ast.BitAnd, ast.Sub, ast.BitXor)) and (l.kind == "set" or r.kind == "set"):
             return T("set", elem=(l.elem or r.elem))
+
+        def is_view(x):
+            return isinstance(x, ast.Call) and isinstance(x.func, ast.Attribute) and x.func.attr in ("keys", "items") and not x.args
+
+        if isinstance(n.op, (ast.BitOr, ast.BitAnd, ast.Sub, ast.BitXor)) and (is_view(n.left) or is_view(n.right)):
+            # set algebra on the key / item views of mappings gives a plain set
+            kt = None
+            for side in (n.left, n.right):
+                if is_view(side):
+                    tm = self.type_of(side.func.value)
+                    if tm.kind == "dict" and getattr(tm, "key", None) is not None:
+                        kt = tm.key
+            return T("set", elem=kt if kt is not None else STR)
         if isinstance(n.op, ast.Add):
             if l.kind == "seq" or r.kind == "seq":
                 o = l.order | r.order
@@ -862,6 +876,10 @@ class FuncAnalysis:
                 if meth in ("union", "difference", "intersection", "symmetric_difference", "copy"):
                     return T("set", elem=recv.elem)
                 if meth in ("add", "update", "discard", "remove", "difference_update", "intersection_update"):
+                    # a set filled in a loop is the same set whatever the visiting order - unless what is added is
+                    # decided by looking at what has been added so far: then the *content* depends on the order
+                    if isinstance(fn.value, ast.Name):
+                        self.self_guarded_accumulation(n, fn.value.id)
                     # D[k].add(v) on a dict of sets may create key k: D's key order follows the enclosing loops
                     if isinstance(fn.value, ast.Subscript) and isinstance(fn.value.value, ast.Name) and self.cur_loop_taint():
                         self.taint_name(fn.value.value.id, self.cur_loop_taint())
@@ -1089,6 +1107,22 @@ class FuncAnalysis:
             tv = ret
             self.sink(f.node, "S4:return-of-ordered-public-accessor", tv, f"return value of {f.qualname}")
 
+    def self_guarded_accumulation(self, node, acc: str):
+        """S7: a set filled in a loop without canonical order, where a condition in that loop reads the set itself."""
+        if not (self.cur_loop_taint() and any(t.kind in (HASH, TEXT) for t in self.cur_loop_taint())):
+            return
+        for loop in self.loop_nodes:
+            for x in ast.walk(loop):
+                tests = []
+                if isinstance(x, (ast.If, ast.IfExp, ast.While)):
+                    tests = [x.test]
+                elif isinstance(x, ast.comprehension):
+                    tests = list(x.ifs)
+                for tnode in tests:
+                    if any(isinstance(y, ast.Name) and y.id == acc and isinstance(y.ctx, ast.Load) for y in ast.walk(tnode)):
+                        self.sink(node, "S7:content-of-a-set-decided-by-its-own-earlier-content", T("set", order=self.cur_loop_taint()), f"`{acc}` is filled in a loop without canonical order and the condition for adding reads `{acc}` itself: which elements end up in it depends on the visiting order")
+                        return
+
     def block(self, stmts):
         for st in stmts:
             self.stmt(st)
@@ -1123,6 +1157,7 @@ class FuncAnalysis:
             if isinstance(st.target, ast.Name):
                 cur = self.env.get(st.target.id, UNKNOWN)
                 if cur.kind == "set":
+                    self.self_guarded_accumulation(st, st.target.id)
                     return
                 if cur.kind == "str" or tv.kind == "str":
                     self.env[st.target.id] = T("str", order=cur.order | tv.order | self.cur_loop_taint())
@@ -1147,10 +1182,12 @@ class FuncAnalysis:
             el, taint = self.iter_elem(st.iter, ti)
             self.bind_iter_target(st.target, st.iter, ti, el)
             self.loop_taints.append(frozenset(taint))
+            self.loop_nodes.append(st)
             self.block(st.body)
             # second pass so that effects of later statements on earlier ones are seen (loop-carried)
             self.block(st.body)
             self.loop_taints.pop()
+            self.loop_nodes.pop()
             self.block(st.orelse)
             return
         if isinstance(st, ast.While):
